@@ -106,7 +106,30 @@ def run(prop, tier_):
         modes = {x.get("mode") for x in c["meta"]["calls"]}
         if len(modes) > 1:
             c["mkmode"] = -1
-    cases = scases + ccases
+    acases = []
+    if prop == "C13":
+        # "never follows links" under an attacker: every placement of the priority attacker actions
+        # (swap the victim for an escaping symlink / staged directory, move it out) before every
+        # relevant syscall of remove_all; judged with the containment predicate of TraceFS
+        for tname, path in (("chain", "a/b"), ("chain", "a"), ("links", "la/c"), ("links", "a/b")):
+            nodes = race.RACE_TREES[tname]
+            call = dict(op="remove_all", path=path)
+            for bname, feat in rootops_static.FEATS:
+                counts, bres, _ = race.baseline_counts(nodes, [call], feat, jobs=1)
+                focus = set()
+                for e in bres[0].get("events", []):
+                    if e.get("ev") == "sys" and e.get("rel"):
+                        focus.add(e.get("dfd_id"))
+                        if e.get("r_id"):
+                            focus.add(e.get("r_id"))
+                acts = [a for a in race.repertoire(nodes, focus=focus) if a.get("prio")]
+                acases += race.make_sweep(tname, nodes, call, feat, counts[0], acts, pairs=False)
+        if quick and len(acases) > 1500:
+            rnd.shuffle(acases)
+            acases = acases[:1500]
+        for c in acases:
+            c["meta"]["kind"] = "attacked"
+    cases = scases + ccases + acases
     cases.sort(key=lambda c: json.dumps(c["feat"]))
     results = run_pv(cases, jobs=12, tag=prop)
     stats, samples = collections.Counter(), []
@@ -117,7 +140,7 @@ def run(prop, tier_):
             stats["abnormal"] += 1
             v.violation(dict(check="mkrm", what="abnormal termination", case=c["id"]), "%s: run ended abnormally: %s %s" % (prop, r.get("status"), c["id"]), c)
             continue
-        if c["meta"]["kind"] == "static":
+        if c["meta"].get("kind") == "static":
             got = lib_outcome(r["out"][0]["results"][0])
             exp = c["meta"]["expect"]
             if bool(exp.get("ok")) != (got[0] == "ok") or (not exp.get("ok") and got[1] != exp.get("err")):
@@ -126,7 +149,11 @@ def run(prop, tier_):
                     v.notes.append("sequential model vs library: %s [%s] model=%s library=%s" % (c["meta"]["call"], c["meta"]["backend"], exp, got))
             else:
                 stats["model_agrees"] += 1
-    race.judge((prop,), cases, results, verdicts, stats, samples)
+    race.judge((prop, "C03") if prop == "C13" else (prop,), cases, results, verdicts, stats, samples)
+    if prop == "C13":
+        for sig, desc, rep in verdicts["C03"].violations:
+            if sig.get("op") == "remove_all":
+                v.violation(dict(sig, check="remove_all-follows-or-escapes"), desc.replace("C03:", "C13 (remove_all acted outside the named subtree / followed a link):"), rep)
     rc = v.finish()
     cov = dict(states=max(gen["distinct"], 1) + stats["trace_states"], transitions=max(gen["states"], 1) + stats["events"], traces_validated_against_impl=stats["traces"],
                samples=samples, evaluations=len(cases), distinct_nontrivial=len({json.dumps(c["meta"], sort_keys=True) for c in cases}),
